@@ -309,7 +309,8 @@ func runC05(c *Ctx) {
 			}
 		}
 		sort.Strings(bools)
-		envs := product(bools, map[string][]int64{"ver": {wdDefault, wdDefault + 1}})
+		// the payload version is an unvalidated byte: besides the two defined versions, two undefined ones stand for the rest
+		envs := product(bools, map[string][]int64{"ver": {wdDefault, wdDefault + 1, wdDefault + 2, 255}})
 		c.DecisionX("T-exempt", "checkTransactionSignature|table", cts, syms, envs, 0, func(e Env) string {
 			ex := e.B["IsCRCProposalWithdrawTx"] && e.I["ver"] == wdDefault
 			for _, n := range exempt {
@@ -541,6 +542,146 @@ func runC05(c *Ctx) {
 		c.G1s("G1-run", "checkSchnorrSignatures|delegates to SchnorrVerify", f, "crypto.SchnorrVerify", callPred(R{"crypto", "", "SchnorrVerify"}), G1Opt{HasIdx: true, Idx: 0, BoolSuccess: true, PassVal: true})
 	}
 	_ = types.Typ
+	c.c05Digest()
+}
+
+// hashedContents lists, for the hash computations the value v is derived from inside its function, the values
+// whose bytes are hashed: the argument of a one-shot SHA-256 (sha256.Sum256, common.Sha256D, common.Hash) or the
+// arguments of the Write calls on the hash object whose Sum the value comes from. The argument of Sum itself is an
+// output buffer prefix and is not hashed.
+func hashedContents(fn *ssa.Function, v ssa.Value) (contents []ssa.Value, nhash int) {
+	isOneShot := func(cm *ssa.CallCommon) bool {
+		o := ssau.CalleeObj(cm)
+		if o == nil || o.Pkg() == nil {
+			return false
+		}
+		switch o.Pkg().Path() + "." + o.Name() {
+		case "crypto/sha256.Sum256", "github.com/elastos/Elastos.ELA/common.Sha256D", "github.com/elastos/Elastos.ELA/common.Hash":
+			return true
+		}
+		return false
+	}
+	methodOn := func(cm *ssa.CallCommon, name string) (ssa.Value, bool) {
+		if cm.IsInvoke() {
+			if cm.Method.Name() == name {
+				return cm.Value, true
+			}
+			return nil, false
+		}
+		if o := ssau.CalleeObj(cm); o != nil && o.Name() == name && o.Type().(*types.Signature).Recv() != nil && len(cm.Args) > 0 {
+			return cm.Args[0], true
+		}
+		return nil, false
+	}
+	for x := range ssau.Slice(v) {
+		cl, ok := x.(*ssa.Call)
+		if !ok {
+			continue
+		}
+		if isOneShot(&cl.Call) && len(cl.Call.Args) > 0 {
+			nhash++
+			contents = append(contents, cl.Call.Args[len(cl.Call.Args)-1])
+			continue
+		}
+		if h, ok := methodOn(&cl.Call, "Sum"); ok {
+			nhash++
+			for _, b := range fn.Blocks {
+				for _, in := range b.Instrs {
+					w, ok := in.(*ssa.Call)
+					if !ok {
+						continue
+					}
+					if hw, ok := methodOn(&w.Call, "Write"); ok && ssau.Unwrap(hw) == ssau.Unwrap(h) {
+						args := w.Call.Args
+						contents = append(contents, args[len(args)-1])
+					}
+				}
+			}
+		}
+	}
+	return
+}
+
+// contentFrom: the bytes of v are computed from a value satisfying pred (an empty re-slice x[:0] carries no bytes).
+func contentFrom(v ssa.Value, pred func(ssa.Value) bool) bool {
+	return ssau.DependsOnCut(v, pred, func(x ssa.Value) bool {
+		if sl, ok := x.(*ssa.Slice); ok && sl.High != nil {
+			if k, ok := sl.High.(*ssa.Const); ok && k.Value != nil && k.Value.Kind() == constant.Int {
+				if n, ok := constant.Int64Val(k.Value); ok && n == 0 {
+					return true
+				}
+			}
+		}
+		return false
+	})
+}
+
+// c05Digest: the digest each single-signature verifier checks the signature against covers the signed data.
+func (c *Ctx) c05Digest() {
+	c.R.Rule("K-digest", "the value a signature is verified against is a SHA-256 whose hashed bytes are computed from the signed data: in crypto.Verify the hash argument of ecdsa.Verify covers the parameter data; in crypto.SchnorrVerify the challenge comes from getE applied to the public key, the signature's r and the message, and inside getE the hashed bytes cover every parameter (an x[:0] re-slice or the argument of hash.Sum carries no bytes)")
+	isParam := func(name string) func(ssa.Value) bool {
+		return func(x ssa.Value) bool { p, ok := x.(*ssa.Parameter); return ok && p.Name() == name }
+	}
+	n := 0
+	if f := c.fn("crypto", "", "Verify"); f != nil {
+		for _, call := range ssau.CallsIn(f, func(cm *ssa.CallCommon) bool {
+			o := ssau.CalleeObj(cm)
+			return o != nil && o.Pkg() != nil && o.Pkg().Path() == "crypto/ecdsa" && (o.Name() == "Verify" || o.Name() == "VerifyASN1")
+		}) {
+			n++
+			a := call.Common().Args
+			contents, nh := hashedContents(f, a[1])
+			ok := nh > 0
+			covered := false
+			for _, h := range contents {
+				if contentFrom(h, isParam("data")) {
+					covered = true
+				}
+			}
+			c.R.Check("K-digest", "crypto.Verify|digest=SHA256(data)", ok && covered, c.posOf(call),
+				fmt.Sprintf("the hash passed to ecdsa.Verify must be a SHA-256 over the parameter data (%d hash computations, data covered=%v)", nh, covered))
+		}
+	}
+	sv := c.fn("crypto", "", "SchnorrVerify")
+	ge := c.fn("crypto", "", "getE")
+	if sv != nil && ge != nil {
+		calls := ssau.CallsIn(sv, callPred(R{"crypto", "", "getE"}))
+		c.R.Check("K-digest", "SchnorrVerify|challenge from getE", len(calls) == 1, c.pos(sv.Pos()), fmt.Sprintf("%d calls of getE in SchnorrVerify", len(calls)))
+		for _, call := range calls {
+			n++
+			a := call.Common().Args
+			okArgs := len(a) == 4 && contentFrom(a[0], isParam("publicKey")) && contentFrom(a[1], isParam("publicKey")) &&
+				contentFrom(a[2], isParam("signature")) && contentFrom(a[3], isParam("message"))
+			c.R.Check("K-digest", "SchnorrVerify|getE(P from publicKey, r from signature, message)", okArgs, c.posOf(call), "getE must be applied to the public key point, the signature's r and the message")
+			// the acceptance test Rx == r is computed from e
+			cv, _ := call.(*ssa.Call)
+			usedInVerdict := false
+			for _, i := range ssau.Ifs(sv) {
+				if cv != nil && ssau.DependsOn(i.Cond, func(x ssa.Value) bool { return x == ssa.Value(cv) }) &&
+					ssau.DependsOn(i.Cond, isParam("signature")) {
+					usedInVerdict = true
+				}
+			}
+			c.R.Check("K-digest", "SchnorrVerify|verdict depends on the challenge", usedInVerdict, c.posOf(call), "a rejecting comparison must be computed from both the challenge e and the signature")
+		}
+		for _, ret := range ssau.Returns(ge) {
+			if len(ret.Results) != 1 {
+				continue
+			}
+			contents, nh := hashedContents(ge, ret.Results[0])
+			for _, p := range ge.Params {
+				covered := false
+				for _, h := range contents {
+					if contentFrom(h, func(x ssa.Value) bool { return x == ssa.Value(p) }) {
+						covered = true
+					}
+				}
+				c.R.Check("K-digest", "getE|hash covers "+p.Name(), nh > 0 && covered, c.posOf(ret),
+					fmt.Sprintf("the challenge hash must cover parameter %s (%d hash computations found, %d hashed values)", p.Name(), nh, len(contents)))
+			}
+		}
+	}
+	c.R.FloorCheck("K-digest verifier sites", n, 2)
 }
 
 // earlyPoint is a place in SpecialContextCheck from which (nil,true) is returned.
